@@ -42,6 +42,11 @@ def constructed(rng):
     yield E.AddExpression(V("x"), V("x"))
     for name in ("\u03b8", "\u03c0", "_t", "xy", "X1", "1", "\u00e9", "x'"):
         yield E.AddExpression(E.MultiplyExpression(C(2), V(name)), E.PowerExpression(V(name), C(2)))
+    for col in (False, True):
+        yield E.MultiplyExpression(E.FactorialExpression(E.AddExpression(V("x"), C(1)), col), C(2))
+        yield E.FactorialExpression(E.NegateExpression(V("x")), col)
+        yield E.AddExpression(E.FactorialExpression(E.FactorialExpression(C(3), col), col), E.SgnExpression(E.MultiplyExpression(C(2), V("y"))))
+        yield E.NegateExpression(E.PowerExpression(E.AbsExpression(E.SubtractExpression(V("a"), C(2))), C(2)))
     yield E.AddExpression(E.MultiplyExpression(C(3), V()), C(1))
     yield E.PowerExpression(V(None), C(2))
     yield E.AddExpression(E.NegateExpression(), C(1))
